@@ -254,6 +254,16 @@ func (k *c10Cmd) register(rr *mon.Real) error {
 	}
 }
 
+// c10IDArg writes the first argument of a command as a word or, half of the time, as an {expression}
+// (an expression FOLLOWED by words).
+func c10IDArg(r *core.Rand, c *core.Ctx, id string) string {
+	if r.Bool() {
+		c.Feature("argument-written-as-expression-before-words")
+		return "{\"" + id + "\"}"
+	}
+	return id
+}
+
 type c10Item struct {
 	kind string // "line", "set", "cmd"
 	text string
@@ -467,7 +477,7 @@ func (p c10) gated(c *core.Ctx) {
 				fmt.Fprintf(&b, "%s<<if true>>\n", ind)
 				ind += "    "
 			}
-			fmt.Fprintf(&b, "%s<<%s %s %v %v>>\n", ind, k.name, k.id, k.num, k.flag)
+			fmt.Fprintf(&b, "%s<<%s %s %v %v>>\n", ind, k.name, c10IDArg(r, c, k.id), k.num, k.flag)
 			for len(ind) > 0 {
 				ind = ind[4:]
 				fmt.Fprintf(&b, "%s<<endif>>\n", ind)
@@ -478,7 +488,7 @@ func (p c10) gated(c *core.Ctx) {
 			}
 			break
 		}
-		fmt.Fprintf(&b, "<<%s %s %v %v>>\n", k.name, k.id, k.num, k.flag)
+		fmt.Fprintf(&b, "<<%s %s %v %v>>\n", k.name, c10IDArg(r, c, k.id), k.num, k.flag)
 		// a line follows every command, so that the call that notices a completion returns an element
 		// (two adjacent commands are exercised by the real-timing workload)
 		id++
